@@ -11,6 +11,9 @@ checks = {
  "C17": ("model_checking", "exhaustive enumeration of all strings up to a length bound over the identifier alphabets through every parser, all byte strings for base64, every size-limit shape (singles and pairs) per version, and the full version table, executed on the real code against grammar recognisers written from the specification",
          "Every string of the alphabet up to the bound is executed through every parser and compared with an independent recogniser; the version table is compared row by row through getters and behavioural probes. Right level: the identifier languages are regular and tiny, so exhaustive enumeration decides them within the bound.",
          "net/netip for IPv6 validity; limits probed at the boundary shapes listed in the evidence rule, not at every length", "4/C17"),
+ "C05": ("model_checking", "bounded-exhaustive enumeration of events (every protected type x every subset of content keys and of extra top-level keys x every room version) executed on the real redaction entry points against per-version spec tables (refredact), with idempotence, identity and signature oracles",
+         "Every event of the alphabet is redacted by the real code (RedactEventJSON and PDU.Redact) and compared value-for-value with an independent transcription of the specification's redaction tables; histories of interleaved cases share one process so hidden state between redactions is exercised.",
+         "trusts ed25519/sha256; numbers outside +/-(2^53-1) and floats are outside the alphabet", "4/C05"),
 }
 pending = {}
 props = [json.loads(l) for l in open('/verif/properties.jsonl')]
